@@ -151,7 +151,7 @@ def f_eval(t, seen):
 def program(form, t, n):
     looped = form.endswith("_loop")
     form = form.replace("_loop", "")
-    expr = f_src(t, (lambda i: "E%d()" % i) if form == "match" else (lambda i: "f%d" % i))
+    expr = f_src(t, ((lambda i: "E(p=%d)" % i) if SAMENAME else (lambda i: "E%d()" % i)) if form == "match" else (lambda i: "f%d" % i))
     expr = expr[1:-1]  # top-level parentheses are optional
     flows = "".join("flow f%d\n  match E%d()\n\n" % (i, i) for i in range(n))
     if looped:  # the statement is re-entered after every completion: "since the statement became active" restarts
@@ -201,7 +201,7 @@ def group_first_moment(s0: int, s1: int, s2: int, s3: int, s4: int, c0: int, c1:
         name = "E%d" % k if k < NL else "Irrelevant"
         if k < NL:
             seen.add(k)
-        v2.run_to_completion(st, {"type": name})
+        v2.run_to_completion(st, {"type": "E", "p": k} if (SAMENAME and k < NL and FORM.startswith("match")) else {"type": name})
         n_done = v2.out_names(st).count("Done")
         want_now = f_eval(t, seen) and (fired == 0 or LOOPED)
         trace.append((name, n_done))
@@ -247,7 +247,7 @@ SPEC = {
     "bounds": "tie-breaks: 4 symbolic outcomes of the interpreter's random.choice per run; (a) every binary and/or formula of depth<=3 over 8 positional leaves (3^7 shapes) x every truth assignment; "
               "(b) every binary and/or tree over 2..3 (thorough 4) distinct leaves in order (2 + 8 + 40 formulas) for `match` on events, `await` and `when` on flows; "
               "every event sequence of length 3 (n<=3) / 4 (thorough) over {E0..En-1, Irrelevant}, checked after every step",
-    "outside": "re-entered statements (`while True` loop around the group) are covered for match (3 leaves) and await (2 leaves; thorough: await/when 3 leaves) only; more than 4 distinct leaves; the same leaf written twice in one formula; groups mixing actions and flows; event payloads (events are parameterless)",
+    "outside": "re-entered statements (`while True` loop around the group) are covered for match (3 leaves) and await (2 leaves; thorough: await/when 3 leaves) only; more than 4 distinct leaves; the same leaf written twice in one formula; groups mixing actions and flows; event payloads other than one int parameter (match form, 3 leaves `E(p=i)` of one name; otherwise events are parameterless)",
     "assumptions": ["the state (parse + expand_elements + initialize) is rebuilt from source text on every path; parse untraced, expansion traced"],
     "explanation": "Oracle: truth-table equality for the DNF; for run time, #Done emitted at step k == 1 iff formula(seen_k) and not fired before, else 0.",
     "conditions": [
@@ -255,7 +255,8 @@ SPEC = {
          "smoke": [{"slice": {}, "args": dict(k0=1, k1=2, k2=2, k3=0, k4=1, k5=0, k6=0, b0=True, b1=False, b2=False, b3=True, b4=True, b5=False, b6=False, b7=False)}]},
         {"fn": "dnf_twin", "expect": "counterexample", "slices": [{}], "tcond": 120, "tpath": 10, "bound": "twin"},
         {"fn": "group_first_moment", "tiers": ("quick",), "slices": _slices("match", 2, 3) + _slices("match", 3, 3) + _slices("await", 2, 3) + _slices("await", 3, 2, [2, 6])
-            + _slices("when", 2, 3) + _slices("when", 3, 2, [2, 6]) + _slices("match_loop", 3, 3, [0, 1, 5, 6]) + _slices("await_loop", 2, 3) , "tcond": 600, "tpath": 30,
+            + _slices("when", 2, 3) + _slices("when", 3, 2, [2, 6]) + _slices("match_loop", 3, 3, [0, 1, 5, 6]) + _slices("await_loop", 2, 3)
+            + [dict(x, samename=1) for x in _slices("match", 3, 3)], "tcond": 600, "tpath": 30,
          "bound": "match: all 2-3 leaf formulas; await/when: all 2-leaf + 2 mixed 3-leaf formulas; all sequences of 3 events (2 for the 3-leaf await/when formulas)",
          "smoke": [{"slice": {"form": "await", "leaves": 3, "f": 1, "seq": 4}, "args": dict(s0=3, s1=0, s2=2, s3=1, s4=0, c0=0, c1=1, c2=0, c3=0)}]},
         {"fn": "group_first_moment", "tiers": ("thorough",), "slices": _slices("match", 4, 4) + _slices("await", 3, 4) + _slices("when", 3, 4)
